@@ -2,6 +2,8 @@ import Rare.Proofs.C02
 import Rare.Proofs.C02Filter
 import Rare.Proofs.C02Named
 import Rare.Proofs.C02RxIdx
+import Rare.Proofs.C02RxPosix
+import Rare.Proofs.C02RxRep
 import Rare.Model.C02RxParse
 import Rare.Model.C02Plan
 import Rare.Props.C01
@@ -492,6 +494,114 @@ theorem rx_array_value (s : Bytes) (r : Rx.Re) (ng p j : Nat) (c : Rx.Caps)
   have := List.mem_range'_1.mp hn
   rw [Rx.specGroup_group s ng _ n (by omega) (by omega)]
   rfl
+
+
+/-! ### `--posix` (leftmost-longest), counted repetition, empty-width assertions -/
+
+/-- **POSIX mode: leftmost-longest.**  When the search reports `(p, j, c)`: `s[p:j]` is a match of `r`; nothing
+matches from an earlier start offset (leftmost); no match from `p` ends later (longest); among the matches
+from `p` that end at `j` it is the first in priority order (what a backtracking search would have found
+first – Go's documented choice, not POSIX's sub-match rule); every reported group span lies inside the match
+and is derived by the body of a group with that number.  When it reports nothing, no stretch of the text matches. -/
+theorem rx_posix_leftmost_longest (s : Bytes) (r : Rx.Re) :
+    (∀ p j c, Rx.searchL s r = some (p, j, c) →
+      p ≤ j ∧ j ≤ s.length ∧ Rx.Derives s r p j ∧ (∀ q, q < p → ∀ j', ¬ Rx.Derives s r q j') ∧
+      (∀ j', Rx.Derives s r p j' → j' ≤ j) ∧
+      (∃ l1 l2, Rx.den s r p [] = l1 ++ (j, c) :: l2 ∧ ∀ y ∈ l1, y.1 < j) ∧
+      (∀ n a b, Rx.lookup c n = some (a, b) →
+        p ≤ a ∧ a ≤ b ∧ b ≤ j ∧ ∃ body, Rx.Sub r n body ∧ Rx.Derives s body a b)) ∧
+    (Rx.searchL s r = none → ∀ q, q ≤ s.length → ∀ j', ¬ Rx.Derives s r q j') := by
+  refine ⟨?_, Rx.searchL_none s r⟩
+  intro p j c h
+  obtain ⟨h1, h2, h3, h4, h5, ⟨l1, l2, e, hl1, _⟩, h7⟩ := Rx.searchL_some s r p j c h
+  exact ⟨h1, h2, h3, h4, h5, ⟨l1, l2, e, hl1⟩, fun n a b hl => h7 _ (Rx.lookup_mem hl)⟩
+
+/-- Both modes match the same lines from the same start offset; the POSIX match is at least as long. -/
+theorem rx_posix_vs_perl (s : Bytes) (r : Rx.Re) :
+    (Rx.search s r = none ↔ Rx.searchL s r = none) ∧
+    (∀ p j c, Rx.search s r = some (p, j, c) → ∃ j' c', Rx.searchL s r = some (p, j', c') ∧ j ≤ j') :=
+  Rx.searchL_vs_search s r
+
+/-- **Capture values in POSIX mode**: the index list is `[]` iff nothing matches, otherwise engine-shaped
+(`EngineWF`, `2·(groups+1)` entries); `{0}` is the leftmost-longest stretch and `{n}` the text of group `n`'s
+span in the reported match (empty when the group did not participate); `GetMatch` does not panic. -/
+theorem rx_posix_capture_values (s : Bytes) (r : Rx.Re) (ng : Nat) (hng : (ng : Int) < 2305843009213693951) :
+    (Rx.findSubmatchIndexL s r ng = [] ↔ Rx.searchL s r = none) ∧
+    (∀ p j c, Rx.searchL s r = some (p, j, c) →
+      EngineWF s (Rx.findSubmatchIndexL s r ng) ∧ (Rx.findSubmatchIndexL s r ng).length = 2 * (ng + 1) ∧
+      getMatch s (Rx.findSubmatchIndexL s r ng) 0 = .ok ((s.drop p).take (j - p)) ∧
+      ∀ n : Nat, 1 ≤ n → n ≤ ng →
+        getMatch s (Rx.findSubmatchIndexL s r ng) (n : Int) =
+          .ok (match Rx.lookup c n with
+            | some (a, b) => (s.drop a).take (b - a)
+            | none => [])) := by
+  constructor
+  · unfold Rx.findSubmatchIndexL
+    cases h : Rx.searchL s r with
+    | none => simp
+    | some m =>
+      have hne : Rx.indicesOf ng m ≠ [] := by
+        intro e
+        have := Rx.indicesOf_length ng m
+        rw [e] at this
+        simp at this
+      exact ⟨fun e => absurd e hne, fun e => by cases e⟩
+  · intro p j c h
+    have hidx : Rx.findSubmatchIndexL s r ng = Rx.indicesOf ng (p, j, c) := by simp [Rx.findSubmatchIndexL, h]
+    obtain ⟨h1, h2, _, _, _, _, h6⟩ := Rx.searchL_some s r p j c h
+    have hewf := Rx.indicesOf_engineWF s ng p j c h1 h2 (Rx.capsIn_of_entries h6)
+    have hlen : ((Rx.indicesOf ng (p, j, c)).length : Int) < 4611686018427387904 := by
+      rw [Rx.indicesOf_length]; omega
+    rw [hidx]
+    refine ⟨hewf, Rx.indicesOf_length ng _, ?_, ?_⟩
+    · rw [getMatch_eq_spec s _ 0 hewf.wf hlen (by unfold minInt64 maxInt64; omega), Rx.specGroup_zero]
+    · intro n hn1 hn2
+      rw [getMatch_eq_spec s _ n hewf.wf hlen (by unfold minInt64 maxInt64; omega), Rx.specGroup_group s ng _ n hn1 hn2]
+      rfl
+
+/-- **Counted repetition.**  What the parser builds for `x{n,m}` (`n ≤ m`; `x{n}` is `x{n,n}`) matches exactly
+`k` matches of `x` in a row for some `n ≤ k ≤ m`, and `x{n,}` for some `k ≥ n` – greedy or lazy, whatever `x` is
+(groups, alternations, bodies that can match the empty text). -/
+theorem rx_counted_repetition (s : Bytes) (g : Bool) (a : Rx.Re) (n i j : Nat) :
+    (∀ m, n ≤ m → (Rx.Derives s (Rx.repeatRe g a n (some m)) i j ↔ ∃ k, n ≤ k ∧ k ≤ m ∧ Rx.Pow s a k i j)) ∧
+    (Rx.Derives s (Rx.repeatRe g a n none) i j ↔ ∃ k, n ≤ k ∧ Rx.Pow s a k i j) :=
+  ⟨fun m h => Rx.repeat_bounded_derives s g a n m i j h, Rx.repeat_open_derives s g a n i j⟩
+
+/-- **Empty-width assertions** match the empty stretch exactly where `syntax.EmptyOpContext` says: `\A`/`^`
+at offset 0, `\z`/`$` at the end of the text, POSIX-mode `^` also after and `$` also before a line feed, `\b` where
+exactly one of the two neighbouring bytes is a word byte (`\B`: elsewhere). -/
+theorem rx_assertions (s : Bytes) (k : Rx.Look) (i j : Nat) :
+    (Rx.Derives s (.look k) i j ↔ i = j ∧ Rx.holds s k i = true) ∧
+    (Rx.holds s .bot i = true ↔ i = 0) ∧ (Rx.holds s .eot i = true ↔ i = s.length) ∧
+    (Rx.holds s .bol i = true ↔ i = 0 ∨ s[i - 1]? = some 10) ∧
+    (Rx.holds s .eol i = true ↔ i = s.length ∨ s[i]? = some 10) ∧
+    (Rx.holds s .wb i = true ↔ Rx.wordBefore s i ≠ Rx.wordAt s i) ∧
+    (Rx.holds s .nwb i = true ↔ Rx.wordBefore s i = Rx.wordAt s i) := by
+  refine ⟨⟨fun h => ?_, fun ⟨e, h⟩ => e ▸ .look h⟩, ?_, ?_, ?_, ?_, ?_, ?_⟩
+  · cases h with
+    | look h => exact ⟨rfl, h⟩
+  all_goals simp [Rx.holds]
+
+/-- `a|ab` on `xab`: Perl mode reports `a`, POSIX mode `ab`; `(a*)(a|b)*` on `aab`: the longest match with the
+captures a backtracking search finds first; `(\d{1,3})\.(\d{2})` and `\bb` through the parser -/
+example :
+    (Rx.parseEx false (lit "a|ab")).map (fun p => Rx.findSubmatchIndex (lit "xab") p.re p.ng) = some [1, 2] ∧
+    (Rx.parseEx true (lit "a|ab")).map (fun p => Rx.findSubmatchIndexL (lit "xab") p.re p.ng) = some [1, 3] ∧
+    (Rx.parseEx true (lit "(a*)(a|b)*")).map (fun p => Rx.findSubmatchIndexL (lit "aab") p.re p.ng) = some [0, 3, 0, 2, 2, 3] ∧
+    (Rx.parseEx false (lit "(\\d{1,3})\\.(\\d{2})")).map (fun p => Rx.findSubmatchIndex (lit "v1234.567") p.re p.ng)
+      = some [2, 8, 2, 5, 6, 8] ∧
+    (Rx.parseEx false (lit "\\bb")).map (fun p => Rx.findSubmatchIndex (lit "ab b") p.re p.ng) = some [3, 4] ∧
+    (Rx.parseEx true (lit "\\d")).isNone = true ∧ (Rx.parseEx false (lit "(a{30}){40}")).isNone = true := by
+  decide +kernel
+
+/-- `^` under `--posix` is line-wise (no `OneLine` flag) -/
+example : (Rx.parseEx true (lit "^b")).map (fun p => Rx.findSubmatchIndexL (lit "a\nb") p.re p.ng) = some [2, 3] ∧
+    (Rx.parseEx false (lit "^b")).map (fun p => Rx.findSubmatchIndex (lit "a\nb") p.re p.ng) = some [] := by
+  decide +kernel
+
+/-- non-vacuity of `rx_counted_repetition`: three `a` in a row for `a{2,3}` -/
+example : Rx.Pow (lit "aaa") (.cls false [(97, 97)]) 3 0 3 :=
+  .succ (.cls (b := 97) rfl rfl) (.succ (.cls (b := 97) rfl rfl) (.succ (.cls (b := 97) rfl rfl) (.zero 3)))
 
 /-- Non-vacuity: an optional group that did not participate, a nested group, and a missing group. -/
 example : WF [97, 98, 99] [0, 3, -1, -1, 1, 2] ∧
